@@ -489,18 +489,20 @@ def flatten(spec, secs, proxied):
                 L.edges.add((key, "Branch", False, True, tgt(ins[1])))
             elif k == "jcc":
                 L.edges.add((key, "Branch", True, True, tgt(ins[1])))
-            elif k == "call":
-                tg = tgt(ins[1])
-                L.edges.add((key, "Call", False, True, tg))
-                if isinstance(tg, tuple) and tg in zero_code and tg in func_at and func_at[tg][1] == "c":
-                    # a zero-sized block of one function sits exactly where code of (possibly) another one starts: the
-                    # listing cannot tell which of the two is called, so the returns of that code may or may not come back here
-                    if func_at[tg][0] and nxt_code:
-                        maybe_calls_to[func_at[tg][0]].add(nxt)
-                elif isinstance(tg, tuple) and tg in func_at and func_at[tg][1] == "c" and func_at[tg][0] and nxt_code:
-                    calls_to[func_at[tg][0]].add(nxt)
-                elif isinstance(tg, tuple) and (tg not in func_at or func_at[tg][1] != "c") and zero_code.get(tg) and nxt_code:
-                    calls_to[zero_code[tg]].add(nxt)  # the callee is a zero-sized block of that function with data / nothing behind it
+            elif k == "call" or (k == "icall" and len(ins) > 1):
+                # ("icall", L1, L2, ...): an indirect call whose possible callees the CFG knows (one Call edge per callee)
+                for lab in ins[1:]:
+                    tg = tgt(lab)
+                    L.edges.add((key, "Call", False, k == "call", tg))
+                    if isinstance(tg, tuple) and tg in zero_code and tg in func_at and func_at[tg][1] == "c":
+                        # a zero-sized block of one function sits exactly where code of (possibly) another one starts: the
+                        # listing cannot tell which of the two is called, so the returns of that code may or may not come back here
+                        if func_at[tg][0] and nxt_code:
+                            maybe_calls_to[func_at[tg][0]].add(nxt)
+                    elif isinstance(tg, tuple) and tg in func_at and func_at[tg][1] == "c" and func_at[tg][0] and nxt_code:
+                        calls_to[func_at[tg][0]].add(nxt)
+                    elif isinstance(tg, tuple) and (tg not in func_at or func_at[tg][1] != "c") and zero_code.get(tg) and nxt_code:
+                        calls_to[zero_code[tg]].add(nxt)  # the callee is a zero-sized block of that function with data / nothing behind it
             elif k == "ijmp":
                 L.edges.add((key, "Branch", False, False, "proxy"))
             elif k == "icall":
@@ -649,6 +651,11 @@ def build(spec):
             tb = w.blocks[pos2blk[tg]]
         elif tg.startswith("proxy:"):
             tb = w.syms[tg[6:]].referent
+        elif typ == "Return" and spec.get("share_return_proxy"):
+            # legal input shape: all functions without known callers return to ONE shared proxy block
+            if "ret" not in proxies:
+                proxies["ret"] = add_proxy_block(m)
+            tb = proxies["ret"]
         else:
             tb = add_proxy_block(m)
         ir.cfg.add(gtirb.Edge(sb, tb, gtirb.Edge.Label(getattr(ET, typ), cond, direct)))
